@@ -62,7 +62,7 @@ def _class_of_value(e: ast.AST) -> Optional[str]:
     return None
 
 
-LATER_RULES = ' Later rules: (R12.6) hand-written visit_K methods of the template compiler pass all fields of K, empty ones included; (R12.7) the pattern list is matched as given; (R12.8) a wildcard never matches an absent child; (R12.9) leaf values are compared type-strictly; (R12.10) the candidate classes the search selects before matching are a necessary condition of a match for every kind of template (type, tree, wildcard, alternatives).'
+LATER_RULES = ' Later rules: (R12.6) hand-written visit_K methods of the template compiler pass all fields of K, empty ones included; (R12.7) the pattern list is matched as given; (R12.8) a wildcard never matches an absent child; (R12.9) leaf values are compared type-strictly; (R12.10) the candidate classes the search selects before matching are a necessary condition of a match for every kind of template (type, tree, wildcard, alternatives); (R12.11) the entry points of the pattern language ignore the same fields apart from positions.'
 
 
 def check(prog: Program, tier: str) -> Result:
@@ -94,7 +94,8 @@ def check(prog: Program, tier: str) -> Result:
     _r12_8(prog, res)
     _r12_9(prog, res)
     _r12_10(prog, res)
-    res.floors.update({"R12.1": 18, "R12.2": 11, "R12.3": 3, "R12.4": 8, "R12.5": 1, "R12.6": 4, "R12.7": 4, "R12.8": 1, "R12.9": 1, "R12.10": 4})
+    _r12_11(prog, res)
+    res.floors.update({"R12.1": 18, "R12.2": 11, "R12.3": 3, "R12.4": 8, "R12.5": 1, "R12.6": 4, "R12.7": 4, "R12.8": 1, "R12.9": 1, "R12.10": 4, "R12.11": 4})
     return res
 
 
@@ -737,6 +738,68 @@ def _selection_adequate(value: ast.AST, var: str, kind: str, helper: Optional[Fu
 
 
 
+# ------------------------------------------------------------------------------------------------ R12.11
+POSITIONS = {"lineno", "col_offset", "end_lineno", "end_col_offset"}
+SEARCH_ENTRIES = ("match_template", "walk_wildcard", "walk", "walk_sequence")
+
+
+def _r12_11(prog: Program, res: Result) -> None:
+    """One pattern language, several entry points: matching one node (match_template), searching nodes (walk_wildcard /
+    walk) and searching statement sequences (walk_sequence).  What they ignore apart from positions has to be the same
+    set, otherwise the same pattern matches the same code through one entry point and not through the other
+    (`x = "a"` against `x = u"a"`: found as part of a two-statement pattern, not found alone).  The set in force is the
+    default of the entry's own `ignore` parameter when it passes that on, else the default of the matcher it calls."""
+    from ..model import ConstEval
+    core = prog.module("core")
+
+    def default_of(fn: Func, pname: str):
+        args = fn.node.args
+        pos = args.posonlyargs + args.args
+        table = dict(zip([a.arg for a in pos][len(pos) - len(args.defaults):], args.defaults))
+        table.update({a.arg: d for a, d in zip(args.kwonlyargs, args.kw_defaults) if d is not None})
+        if pname not in table:
+            raise Unresolvable(f"{fn.fq} has no default for {pname}")
+        return set(ConstEval(prog, fn.mod).ev(table[pname]))
+
+    matcher = prog.func("core", "match_template")
+    try:
+        reference = default_of(matcher, "ignore") - POSITIONS
+    except Unresolvable as error:
+        res.undecided("R12.11", matcher.loc(), matcher.fq, "default of ignore", str(error))
+        return
+    res.ok("R12.11", matcher.loc(), matcher.fq, f"ignored apart from positions: {sorted(reference)}", "the reference: matching one node")
+    for name in SEARCH_ENTRIES[1:]:
+        fn = prog.funcs.get(("core", name))
+        if fn is None:
+            raise AnalysisError(f"anchor core.{name} not found")
+        for c in prog.calls_in(fn):
+            r = prog.resolve_call(c.func, fn.mod, fn)
+            if not (r and r[0] == "fn" and r[1].mod.name == "core" and r[1].node.name in SEARCH_ENTRIES):
+                continue
+            callee = r[1]
+            passed = next((k.value for k in c.keywords if k.arg == "ignore"), None)
+            if passed is None and len(c.args) > callee.posparams.index("ignore") if "ignore" in callee.posparams else False:
+                passed = c.args[callee.posparams.index("ignore")]
+            try:
+                if passed is None:
+                    if "ignore" not in callee.all_params:
+                        continue            # decided at the callee's own calls
+                    inforce, how = default_of(callee, "ignore"), f"the default of {callee.node.name}()"
+                elif isinstance(passed, ast.Name) and passed.id in fn.all_params:
+                    inforce, how = default_of(fn, passed.id), f"the default of the own parameter"
+                else:
+                    inforce, how = set(ConstEval(prog, fn.mod).ev(passed)), "the value passed"
+            except Unresolvable as error:
+                res.undecided("R12.11", fn.loc(c), fn.fq, f"{callee.node.name}(..) # what is ignored", str(error))
+                continue
+            extra = sorted((inforce - POSITIONS) ^ reference)
+            res.decide(not extra, "R12.11", fn.loc(c), fn.fq, f"{callee.node.name}(..) # ignored apart from positions: {sorted(inforce - POSITIONS)}",
+                       f"{how}: the same as for matching one node" if not extra else
+                       f"{how}: differs from match_template() in {extra}: the same pattern matches the same code through one entry point and not through "
+                       f"the other (`x = \"a\"` finds `x = u\"a\"` only as part of a longer statement pattern)")
+
+
+
 # ------------------------------------------------------------------------------------------------ R12.5
 def _r12_5(prog: Program, res: Result) -> None:
     """Search completeness of the list matcher: inside the loop over the quantifier expansions a `return` may only
@@ -905,6 +968,9 @@ VARIANTS = [
     Variant("candidates-wildcard-case-dropped", "FIRE", "core", "    if isinstance(template, Wildcard):  # what the wildcard stands for decides\n        if template.template is object:  # any piece of code: the expressions and the statements\n            return (ast.expr, ast.stmt)\n        return _candidate_types(template.template)\n", "", "R12.10"),
     Variant("candidates-first-alternative-only", "FIRE", "core", "        return tuple(_candidate_types(alternative) for alternative in template)\n", "        return _candidate_types(template[0])\n", "R12.10"),
     Variant("candidates-untyped-wildcard-every-node", "SILENT", "core", "            return (ast.expr, ast.stmt)\n", "            return ast.AST\n", "R12.10"),
+    Variant("node-search-compares-string-prefix", "FIRE", "core", "    scope: ast.AST, node_template: Template, ignore: Collection[str] = SEARCH_IGNORE\n", "    scope: ast.AST, node_template: Template, ignore: Collection[str] = ()\n", "R12.11"),
+    Variant("sequence-search-ignores-context", "FIRE", "core", "                    if m := match_template(node, template):", "                    if m := match_template(node, template, ignore=DEFAULT_IGNORE | {\"ctx\"}):", "R12.11"),
+    Variant("sequence-search-passes-the-default-explicitly", "SILENT", "core", "                    if m := match_template(node, template):", "                    if m := match_template(node, template, ignore=DEFAULT_IGNORE):", "R12.11"),
     Variant("zero-or-one-needs-one", "FIRE", "core", "            node_counts[(i, node.template)] = (0, 1)\n", "            node_counts[(i, node.template)] = (1, 1)\n", "R12.1"),
     Variant("star-plus-regexes-swapped", "FIRE", "core",
             "        **{name[2:-3]: ZeroOrMany(object) for name in re.findall(r\"\\{\\{\\w+\\*\\}\\}\", source)},\n        **{name[2:-3]: OneOrMany(object) for name in re.findall(r\"\\{\\{\\w+\\+\\}\\}\", source)},",
